@@ -33,6 +33,14 @@ fn kd10_reset_equals_fresh() {
     let dirty: usize = kani::any();
     kani::assume(dirty < HASH_SIZE);
     ha[dirty] = 0x1234;
+    // ... and stale window bytes and hash-chain links (the match finders read a few bytes past the valid data and
+    // longest_match_slow follows links of positions that were never inserted: a fresh stream has zeros there)
+    let dirty_w: usize = kani::any();
+    kani::assume(dirty_w < (2 << WB));
+    wa[dirty_w] = 0x5a;
+    let dirty_p: usize = kani::any();
+    kani::assume(dirty_p < (1 << WB));
+    pa[dirty_p] = 0x4321;
     let mut a = typed_state(&mut wa, &mut pa, &mut ha, &mut pea, &mut sya, WB, LB, level, wrap0, Strategy::Default);
     let mut b = typed_state(&mut wb, &mut pb, &mut hb, &mut peb, &mut syb, WB, LB, level, wrap0, Strategy::Default);
     // dirty every scalar of `a` (a finished stream has wrap negated)
@@ -97,6 +105,8 @@ fn kd10_reset_equals_fresh() {
     kani::assume(i < HASH_SIZE);
     assert!(x.head.as_slice()[i] == 0, "the whole hash table is cleared, whatever the window size");
     assert!(x.head.as_slice()[dirty] == 0);
+    assert!(x.window.filled()[dirty_w] == y.window.filled()[dirty_w], "no byte of the previous stream is left where the match finders can read it");
+    assert!(x.prev.as_slice()[dirty_p] == y.prev.as_slice()[dirty_p], "no hash-chain link of the previous stream is left");
     let k: usize = kani::any();
     kani::assume(k < L_CODES);
     assert!(x.l_desc.dyn_tree[k].freq() == y.l_desc.dyn_tree[k].freq());
